@@ -211,6 +211,9 @@ class CSSNamespaceRule(cssrule.CSSRule):
                     'CSSNamespaceRule: No ";" found: %s' % self._valuestr(cssText)
                 )
 
+            if wellformed and not self._prefixIsFree(new['prefix']):
+                wellformed = False
+
             if wellformed and self._namespaceURI not in (None, new['uri']):
                 # refuse before anything of the new text is taken over
                 wellformed = False
@@ -272,6 +275,25 @@ class CSSNamespaceRule(cssrule.CSSRule):
                 self._seq._readonly = True
                 break
 
+    def _prefixIsFree(self, prefix):
+        """A rule which is part of a sheet must not take a prefix which
+        another @namespace rule of that sheet declares already: the other
+        namespace would not be addressable anymore."""
+        sheet = self.parentStyleSheet
+        if sheet is None or prefix == self._prefix:
+            return True
+        rules = [r for r in sheet.cssRules if r.type == r.NAMESPACE_RULE]
+        if any(r is self for r in rules) and any(
+            r is not self and r.prefix == prefix for r in rules
+        ):
+            self._log.error(
+                'CSSNamespaceRule: Prefix "%s" is already declared in this '
+                'style sheet.' % prefix,
+                error=xml.dom.NamespaceErr,
+            )
+            return False
+        return True
+
     def _setPrefix(self, prefix=None):
         """
         :param prefix: the new prefix
@@ -296,6 +318,8 @@ class CSSNamespaceRule(cssrule.CSSRule):
                 return
             else:
                 prefix = self._tokenvalue(prefixtoken)
+        if not self._prefixIsFree(prefix):
+            return
         # update seq
         for i, x in enumerate(self._seq):
             if x.type == 'prefix':
